@@ -10,7 +10,7 @@ from vlib.runner import Eval
 ID = "C04"
 LEVEL = "exploration"
 RULE = (
-    "Rules with one or two $not nodes in a drawn position (leading, inner, trailing, repeated with times, nested in $or/$and/$and_any_order, operand "
+    "Rules with one or two $not nodes in a drawn position (leading, inner, trailing, repeated with times, nested in $or/$and/$and_any_order, a double negation $not[$not[X]], operand "
     "position) built around a site of a generated listing; the argument X is drawn from: a decoy (X fails at the site), the description of the site "
     "itself (X matches), the description of the following instruction/operand (X matches one later only), a 2-3 instruction group matching at the "
     "site, a group of which only the first instruction matches; then at most one listing mutator. Oracle: reference matcher (verdict in bool and "
@@ -22,7 +22,7 @@ ASSUMPTIONS = [
     "an operand-level $not against an instruction without operands does not match (there is no operand to consume)",
     "listings <= 12 instructions",
 ]
-POSITIONS = ["leading", "inner", "trailing", "repeated", "nested-or", "nested-and", "nested-any", "operand", "operand", "double"]
+POSITIONS = ["leading", "inner", "trailing", "repeated", "nested-or", "nested-and", "nested-any", "operand", "operand", "double", "not-not"]
 ARGS = ["decoy", "decoy", "site", "next", "group-match", "group-first-only", "item-ops"]
 MUTATORS = ["none", "none", "none", "insert", "delete", "swap", "replace-copy", "extend-mn"]
 FLOORS = {f"pos={p}": 0.05 for p in set(POSITIONS)}
@@ -138,6 +138,10 @@ def cases(draw):
             s = draw(st.integers(i, j - 1))
         x = make_arg(draw, arg, NV, s, full)
         notnode = {"$not": [x]}
+        if pos == "not-not":
+            # a double negation still consumes exactly ONE instruction, however many its argument spans: it matches the
+            # instruction at which X matches (not the whole span of X)
+            notnode = {"$not": [{"$not": [x]}]}
         descs = {k: describe_inst(draw, NV[k], full) for k in range(i, j)}
         if pos == "repeated":
             # a run of instructions each consumed by one repetition of the $not
